@@ -23,16 +23,31 @@ pub struct FileGraph {
     pub root: usize,
     /// spelling style per occurrence
     pub spelling: u8,
+    /// the real file lives in the sibling directory `s/`; `d/<name>` is a symlink to it (so a companion
+    /// `.zyi` can be a link into another directory, and the same file is reachable under two paths)
+    pub linked: Vec<bool>,
+    /// the file also imports `x.zy` by its plain name: `d/x.zy` and `s/x.zy` are different files, and the
+    /// one beside the importer's *canonical* location is meant
+    pub decoy: Vec<bool>,
 }
 
 fn content(g: &FileGraph, i: usize, dir: &Path) -> String {
-    if g.edges[i].is_empty() {
+    if g.edges[i].is_empty() && !g.decoy[i] {
         return "0\n".into();
     }
     let mut parts = vec![];
     for (k, j) in g.edges[i].iter().enumerate() {
         let name = NAMES[*j];
-        let s = match (g.spelling as usize + k + i) % 6 {
+        let mut kind = (g.spelling as usize + k + i) % 6;
+        if g.linked[i] {
+            // written in s/: a plain name reaches only files that live there too
+            kind = match kind {
+                | 0 | 1 if !g.linked[*j] => 2,
+                | 5 => 2,
+                | other => other,
+            };
+        }
+        let s = match kind {
             | 0 => name.to_string(),
             | 1 => format!("./{name}"),
             | 2 => format!("../d/{name}"),
@@ -42,6 +57,9 @@ fn content(g: &FileGraph, i: usize, dir: &Path) -> String {
         };
         parts.push(if k % 2 == 0 { format!("@(import(\"{s}\"))") } else { format!("@[import(\"{s}\")] _") });
     }
+    if g.decoy[i] {
+        parts.push("@(import(\"x.zy\"))".to_string());
+    }
     format!("( {} , 0 )\n", parts.join(" , "))
 }
 
@@ -49,13 +67,24 @@ fn content(g: &FileGraph, i: usize, dir: &Path) -> String {
 fn spec_deps(g: &FileGraph, i: usize) -> Vec<(usize, bool)> {
     let mut d = vec![];
     // companion first (a .zy file with an existing .zyi)
-    if i % 2 == 0 && g.exists[i + 1] {
+    // (adjacent to the implementation's *canonical* location: an implementation that really lives in s/
+    // has a companion only if the signature lives there too; an implementation in d/ finds d/<name>.zyi
+    // even when that is a link into s/)
+    if i % 2 == 0 && g.exists[i + 1] && (!g.linked[i] || g.linked[i + 1]) {
         d.push((i + 1, true));
     }
     for j in &g.edges[i] {
         d.push((*j, false));
     }
     d
+}
+
+fn node_name(i: usize) -> &'static str {
+    match i {
+        | 100 => "s/x.zy",
+        | 101 => "d/x.zy",
+        | _ => NAMES[i],
+    }
 }
 
 fn check_file_graph(ctx: &Ctx, g: &FileGraph, stats: &mut Stats) -> Result<(), Fail> {
@@ -67,14 +96,24 @@ fn check_file_graph(ctx: &Ctx, g: &FileGraph, stats: &mut Stats) -> Result<(), F
     let dir = dir.canonicalize().unwrap();
     let n = g.edges.len();
     std::os::unix::fs::symlink(&dir, base.join("ld")).unwrap();
+    let sdir = base.join("s");
+    std::fs::create_dir_all(&sdir).unwrap();
+    let sdir = sdir.canonicalize().unwrap();
+    std::fs::write(sdir.join("x.zy"), "0\n").unwrap();
+    std::fs::write(dir.join("x.zy"), "0\n").unwrap();
     for i in 0..n {
         if g.exists[i] {
-            std::fs::write(dir.join(NAMES[i]), content(g, i, &dir)).unwrap();
+            if g.linked[i] {
+                std::fs::write(sdir.join(NAMES[i]), content(g, i, &dir)).unwrap();
+                std::os::unix::fs::symlink(format!("../s/{}", NAMES[i]), dir.join(NAMES[i])).unwrap();
+            } else {
+                std::fs::write(dir.join(NAMES[i]), content(g, i, &dir)).unwrap();
+            }
         }
         // a file symlink beside every (possibly missing) file
         std::os::unix::fs::symlink(NAMES[i], dir.join(format!("s_{}", NAMES[i]))).unwrap();
     }
-    let case = json!({"files": (0..n).filter(|i| g.exists[*i]).map(|i| (NAMES[i], content(g, i, &dir).replace(&dir.display().to_string(), "$D"))).collect::<BTreeMap<_, _>>(), "root": NAMES[g.root]});
+    let case = json!({"files": (0..n).filter(|i| g.exists[*i]).map(|i| (if g.linked[i] { format!("s/{} (d/{} links to it)", NAMES[i], NAMES[i]) } else { format!("d/{}", NAMES[i]) }, content(g, i, &dir).replace(&dir.display().to_string(), "$D"))).collect::<BTreeMap<_, _>>(), "also": "d/x.zy and s/x.zy (different files)", "root": NAMES[g.root]});
     // spec: reachability, missing imports, cycles
     let mut reach = BTreeSet::new();
     let mut missing = false;
@@ -110,7 +149,16 @@ fn check_file_graph(ctx: &Ctx, g: &FileGraph, stats: &mut Stats) -> Result<(), F
     let session = CompilerSession::default();
     let got = catch(|| session.graph(dir.join(NAMES[g.root])));
     let got = got.map_err(|p| Fail::new(format!("graph-{}", p.signature()), "a graph or an error value", p.describe()).with(case.clone()))?;
-    let idx = |p: &Path| NAMES.iter().take(n).position(|n| dir.join(n) == p);
+    // canonical path → node; 100 = s/x.zy, 101 = d/x.zy
+    let idx = |p: &Path| -> Option<usize> {
+        if p == sdir.join("x.zy") {
+            return Some(100);
+        }
+        if p == dir.join("x.zy") {
+            return Some(101);
+        }
+        (0..n).find(|i| if g.linked[*i] { sdir.join(NAMES[*i]) == p } else { dir.join(NAMES[*i]) == p })
+    };
     match got {
         | Err(e) => match &*e {
             | SourceLoadError::Cycle(cycle) => {
@@ -154,15 +202,20 @@ fn check_file_graph(ctx: &Ctx, g: &FileGraph, stats: &mut Stats) -> Result<(), F
                 return Err(Fail::new("missing-import-not-reported", "an error for the missing import", "graph loaded").with(case));
             }
             let got_sources: BTreeSet<usize> = graph.sources.iter().filter_map(|(_, f)| idx(&f.path)).collect();
+            let mut reach = reach.clone();
+            let decoy_importers: Vec<usize> = reach.iter().copied().filter(|i| g.decoy[*i]).collect();
+            for i in &decoy_importers {
+                reach.insert(if g.linked[*i] { 100 } else { 101 });
+            }
             if got_sources != reach || graph.sources.len() != reach.len() {
                 return Err(Fail::new(
                     "sources-not-exactly-reachable-set",
-                    format!("one source per reachable file: {:?}", reach.iter().map(|i| NAMES[*i]).collect::<Vec<_>>()),
-                    format!("{:?} ({} entries)", got_sources.iter().map(|i| NAMES[*i]).collect::<Vec<_>>(), graph.sources.len()),
+                    format!("one source per reachable file: {:?}", reach.iter().map(|i| node_name(*i)).collect::<Vec<_>>()),
+                    format!("{:?} ({} entries)", got_sources.iter().map(|i| node_name(*i)).collect::<Vec<_>>(), graph.sources.len()),
                 )
                 .with(case));
             }
-            let want_imports: usize = reach.iter().map(|i| g.edges[*i].len()).sum();
+            let want_imports: usize = reach.iter().filter(|i| **i < 100).map(|i| g.edges[*i].len() + g.decoy[*i] as usize).sum();
             if graph.imports.len() != want_imports {
                 return Err(Fail::new("import-occurrences", format!("{want_imports} import occurrences"), format!("{}", graph.imports.len())).with(case));
             }
@@ -172,15 +225,21 @@ fn check_file_graph(ctx: &Ctx, g: &FileGraph, stats: &mut Stats) -> Result<(), F
                 return Err(Fail::new("provider-order-incomplete", format!("{} entries", reach.len()), format!("{order:?}")).with(case));
             }
             for (pos, i) in order.iter().enumerate() {
+                if *i >= 100 {
+                    continue;
+                }
                 for (j, _) in spec_deps(g, *i) {
                     let pj = order.iter().position(|x| *x == j).unwrap_or(usize::MAX);
                     if pj > pos {
-                        return Err(Fail::new("provider-after-consumer", format!("{} before {}", NAMES[j], NAMES[*i]), format!("order {:?}", order.iter().map(|i| NAMES[*i]).collect::<Vec<_>>())).with(case));
+                        return Err(Fail::new("provider-after-consumer", format!("{} before {}", NAMES[j], NAMES[*i]), format!("order {:?}", order.iter().map(|i| node_name(*i)).collect::<Vec<_>>())).with(case));
                     }
                 }
             }
             stats.count("graph:loaded");
-            let interesting = reach.len() >= 3 || reach.iter().any(|i| g.edges[*i].len() >= 2);
+            let interesting = reach.len() >= 3 || reach.iter().any(|i| *i < 100 && g.edges[*i].len() >= 2);
+            if reach.iter().any(|i| *i < 100 && g.linked[*i]) {
+                stats.count("graph:loaded-with-a-file-that-is-a-link-into-another-directory");
+            }
             if interesting {
                 stats.count("graph:loaded-with-3+-files-or-repeated-imports");
                 stats.nontrivial(hash_of(&format!("{g:?}")));
@@ -223,7 +282,10 @@ fn random_file_graph(tape: &[u8]) -> FileGraph {
             edges[i].push(j);
         }
     }
-    FileGraph { edges, exists, root, spelling: t.below(6) as u8 }
+    let link_some = t.chance(110);
+    let linked: Vec<bool> = (0..n).map(|i| link_some && exists[i] && t.chance(if i % 2 == 1 { 150 } else { 50 })).collect();
+    let decoy: Vec<bool> = (0..n).map(|i| exists[i] && t.chance(30)).collect();
+    FileGraph { edges, exists, root, spelling: t.below(6) as u8, linked, decoy }
 }
 
 fn decode_file_graph(code: u32) -> FileGraph {
@@ -239,7 +301,7 @@ fn decode_file_graph(code: u32) -> FileGraph {
     let mut exists = vec![true, code >> 16 & 1 == 1, true, code >> 17 & 1 == 1];
     let root = (code >> 18 & 3) as usize;
     exists[root] = true;
-    FileGraph { edges, exists, root, spelling: (code >> 20 & 3) as u8 }
+    FileGraph { edges, exists, root, spelling: (code >> 20 & 3) as u8, linked: vec![false; 4], decoy: vec![false; 4] }
 }
 
 /* ------------------------- (b) split vs inlined --------------------------- */
